@@ -30,6 +30,10 @@ def predict(cfg, q=None):
         out.append(dict(key='DGeod_sign', what='DGeod_times_r2 = %g > 0' % q.DGeod_times_r2, cfg=jsonable(cfg)))
     if p2 == 0 and (q.DWell_times_r2 != 0 or q.DGeod_times_r2 != 0 or q.DMerc_times_r2 != 0):
         out.append(dict(key='p2zero', what='Mercier terms do not vanish for p2 = 0', cfg=jsonable(cfg)))
+    # V' = 4 pi^2 |G0| / B0^2 with |G0| = B0 L / (2 pi), L the length of the axis (independent quadrature of the returned arclength element)
+    L = float(np.sum(q.d_l_d_phi) * q.d_phi * q.nfp)
+    if abs(abs(G0) - B0 * L / (2 * pi)) > 1e-10 * abs(G0):
+        out.append(dict(key='G0_axis_length', what='|G0| = %.12g but B0 * (axis length) / (2 pi) = %.12g' % (abs(G0), B0 * L / (2 * pi)), cfg=jsonable(cfg)))
     ngeo = 0
     if q.order == 'r3':
         # geometric clause: V' and V'' from the Jacobian of the RETURNED position vector (series algebra of oracle_C01; props/C11_volume.v)
